@@ -1,7 +1,10 @@
 /-
   C07 — Slashing of pending unbondings is exact, single and scoped (after the `fix:` for D1).
   Theorems about `slashEntryCut` / `slashBucket` (the per-index-key step of `slashUndelegations`) and about the
-  maturity skip. The redelegation part (`slashRedelegations`) is covered by the correspondence and the monitors;
+  maturity skip; and the WHOLE loop (`every_pending_entry_cut_exactly_once`, proof in AllianceProofs/SlashAll over the
+  index/queue invariant INV-I, which `reach_ix` establishes for every history): every unmatured entry of the slashed
+  validator is cut by ⌊f·amount⌋ exactly once, whatever the number of index keys that lead to its bucket, and nothing
+  else in the queue or the index changes. The redelegation part (`slashRedelegations`) is covered by the correspondence and the monitors;
   merged-source records (D2) remain a known finding.
 -/
 import AllianceProofs
@@ -105,6 +108,46 @@ theorem matured_untouched (v : ValId) (f : Dec) (w : World)
   intro k hk
   rw [List.mem_filter] at hk
   exact h k hk.1 (by simpa using hk.2)
+
+/-- the whole of `slashUndelegations`, in any state where index and queue agree: the queue afterwards is the queue before
+    with each entry `e` of a bucket completing at `t` replaced by `slashedEntry v f now t e` — cut by ⌊f·amount⌋ iff it
+    came from validator `v` and `t` has not passed — and the index is unchanged -/
+theorem every_pending_entry_cut_exactly_once (v : ValId) (f : Dec) (w w' : World) (hix : IX w)
+    (h : slashUndelegations v f w = (.ok (), w')) :
+    w'.undelQueue = w.undelQueue.map (fun p => (p.1, p.2.map (slashedEntry v f w.time p.1.1))) ∧
+    w'.undelIndex = w.undelIndex := slashUndelegations_exact v f w w' hix h
+
+/-- … and that agreement holds in every state of every history from a state that has it (the empty stores do) -/
+theorem every_pending_entry_cut_exactly_once_in_every_history (v : ValId) (f : Dec) (w0 w w' : World) (h0 : IX w0)
+    (hr : ReachU w0 w) (h : slashUndelegations v f w = (.ok (), w')) :
+    w'.undelQueue = w.undelQueue.map (fun p => (p.1, p.2.map (slashedEntry v f w.time p.1.1))) ∧
+    w'.undelIndex = w.undelIndex := slashUndelegations_exact v f w w' (reach_ix w0 w h0 hr) h
+
+/-- what `slashedEntry` says, spelled out: the three cases of the property -/
+theorem slashedEntry_cases (v : ValId) (f : Dec) (now t : Time) (e : Undel) :
+    (e.val = v → ¬ t < now → (slashedEntry v f now t e).amount = e.amount - truncateInt (mulInt f e.amount)) ∧
+    (e.val ≠ v → slashedEntry v f now t e = e) ∧ (t < now → slashedEntry v f now t e = e) := by
+  unfold slashedEntry cutE
+  refine ⟨fun h1 h2 => by simp [h1, h2], fun h1 => by simp [h1], fun h2 => by simp [h2]⟩
+
+/-- non-vacuity of the whole-loop theorem: time 5; one matured bucket (completion 3) and one pending bucket (completion 9)
+    reached through three index keys — two of validator 0 (denoms 0 and 1), one of validator 1; a 10% slash of validator
+    0 succeeds, cuts the two pending entries of validator 0 once each, and leaves the matured and the foreign entry -/
+def exW : World := { (default : World) with
+  time := 5
+  undelQueue := [((3, 10), [{ del := 10, val := 0, denom := 0, amount := 500 }]),
+                 ((9, 10), [{ del := 10, val := 0, denom := 0, amount := 1000 }, { del := 10, val := 0, denom := 1, amount := 2000 },
+                            { del := 10, val := 1, denom := 0, amount := 3000 }])]
+  undelIndex := [(0, 3, 0, 10), (0, 9, 0, 10), (0, 9, 1, 10), (1, 9, 0, 10)]
+  bank := [((0, 0), 10000), ((0, 1), 10000)] }
+
+example : (match (slashUndelegations 0 100000000000000000 exW).1 with | .ok _ => true | _ => false) = true ∧
+    (slashUndelegations 0 100000000000000000 exW).2.undelQueue =
+    [((3, 10), [{ del := 10, val := 0, denom := 0, amount := 500 }]),
+     ((9, 10), [{ del := 10, val := 0, denom := 0, amount := 900 }, { del := 10, val := 0, denom := 1, amount := 1800 },
+                { del := 10, val := 1, denom := 0, amount := 3000 }])] ∧
+    (slashUndelegations 0 100000000000000000 exW).2.undelQueue =
+      exW.undelQueue.map (fun p => (p.1, p.2.map (slashedEntry 0 100000000000000000 exW.time p.1.1))) := by decide
 
 /-- non-vacuity: a 10% slash of (validator 0, denom 0) on a mixed bucket cuts only the matching entry -/
 example : slashBucket 0 0 100000000000000000
